@@ -1,121 +1,188 @@
-/-  C20 — helper lemmas: the csv reader state machine inverts the csv writer (proof by induction over
-    the characters of a field, the fields of a record, the records of the text). -/
+/-  C20 — helper lemmas: the csv reader state machine inverts the csv writer, for cells that may contain
+    the delimiter, quotes and the characters of the lineterminator (CR / LF inside quoted fields), for the
+    lineterminators "\n" (what `Table.write` passes) and "\r\n" (the excel default).
+    Proof by induction over the characters of a field, the fields of a record, the records of the text. -/
 import CogentModel.Model.Csv
 namespace CogentModel.Csv
 
-def run (delim : Char) (s : RS) (l : Str) : RS := l.foldl (procChar delim) s
+/-- hypotheses on the dialect -/
+structure GoodDialect (d : Dialect) : Prop where
+  lt : d.lt = ['\n'] ∨ d.lt = ['\r', '\n']
+  dq : d.delim ≠ quoteCh
+  dnl : isNL d.delim = false
 
-@[simp] theorem run_nil (d s) : run d s [] = s := rfl
-@[simp] theorem run_cons (d s c l) : run d s (c :: l) = run d (procChar d s c) l := rfl
-theorem run_append (d s l1 l2) : run d s (l1 ++ l2) = run d (run d s l1) l2 := by
-  simp [run, List.foldl_append]
+/-- every CR / LF inside the field is a character of the lineterminator, so that QUOTE_MINIMAL quotes the
+field (CPython 3.12 only quotes on characters of the lineterminator: with "\n" a bare "\r" is written
+unquoted and splits the record on reading, see `csv_cr_counter`) -/
+def Quotable (d : Dialect) (f : Str) : Prop := ∀ c ∈ f, isNL c = true → c ∈ d.lt
+
+def NoNL (f : Str) : Prop := ∀ c ∈ f, isNL c = false
+
+theorem quotable_of_noNL (d : Dialect) (f : Str) (h : NoNL f) : Quotable d f := by
+  intro c hc hn; rw [h c hc] at hn; cases hn
+
+def emit (r : Row) : Except String (List Row) → Except String (List Row)
+  | .ok rs => .ok (r :: rs)
+  | .error e => .error e
 
 /-- a character that is data everywhere outside quotes -/
 def Plain (delim : Char) (c : Char) : Prop := c ≠ delim ∧ c ≠ quoteCh ∧ isNL c = false
 
-theorem run_inField (d : Char) (f : Str) (hf : ∀ c ∈ f, Plain d c) (fld : Str) (fs : Row) :
-    run d ⟨.inField, fld, fs⟩ f = ⟨.inField, fld ++ f, fs⟩ := by
+theorem lineEnds_of_not_nl (c : Char) (rest : Str) (h : isNL c = false) : lineEnds c rest = false := by
+  simp [isNL] at h
+  simp [lineEnds, h.1, h.2]
+
+theorem readChars_step_plain (delim : Char) (s : RS) (mid : Bool) (c : Char) (cs : Str) (h : isNL c = false) :
+    readChars delim s mid (c :: cs) = readChars delim (procChar delim s c) true cs := by
+  rw [readChars]
+  simp [lineEnds_of_not_nl c cs h]
+
+theorem readChars_inField (d : Char) (f : Str) (hf : ∀ c ∈ f, Plain d c) (fld : Str) (fs : Row) (rest : Str) :
+    readChars d ⟨.inField, fld, fs⟩ true (f ++ rest) = readChars d ⟨.inField, fld ++ f, fs⟩ true rest := by
   induction f generalizing fld with
   | nil => simp
   | cons c cs ih =>
-    have hc := hf c (by simp)
-    obtain ⟨h1, h2, h3⟩ := hc
-    simp [procChar, h1, h3, addChar]
+    obtain ⟨h1, h2, h3⟩ := hf c (by simp)
+    rw [List.cons_append, readChars_step_plain _ _ _ _ _ h3]
+    simp only [procChar, h1, h3, addChar, Bool.false_eq_true, if_false]
     rw [ih (fun c hc => hf c (by simp [hc]))]
     simp
 
-theorem run_inQuoted (d : Char) (f : Str) (fld : Str) (fs : Row) :
-    run d ⟨.inQuoted, fld, fs⟩ (escapeBody f) = ⟨.inQuoted, fld ++ f, fs⟩ := by
-  induction f generalizing fld with
-  | nil => simp [escapeBody]
+/-- the body of a quoted field up to and including the closing quote — CR / LF inside are data, the line ends
+they cause are ignored by the reader (`IN_QUOTED_FIELD: if c == EOL: pass`) -/
+theorem readChars_inQuoted (d : Char) (f : Str) (fld : Str) (fs : Row) (mid : Bool) (rest : Str) :
+    readChars d ⟨.inQuoted, fld, fs⟩ mid (escapeBody f ++ quoteCh :: rest)
+      = readChars d ⟨.quoteInQuoted, fld ++ f, fs⟩ true rest := by
+  induction f generalizing fld mid with
+  | nil =>
+    simp only [escapeBody, List.nil_append, List.append_nil]
+    rw [readChars_step_plain _ _ _ _ _ (by decide)]
+    simp [procChar]
   | cons c cs ih =>
     by_cases hc : c = quoteCh
     · subst hc
-      simp [escapeBody, procChar, addChar, ih]
-    · simp [escapeBody, hc, procChar, addChar, ih]
+      simp only [escapeBody, if_true, List.cons_append]
+      rw [readChars_step_plain _ _ _ _ _ (by decide), readChars_step_plain _ _ _ _ _ (by decide)]
+      simp only [procChar, addChar, if_true]
+      rw [ih]
+      simp
+    · simp only [escapeBody, hc, if_false, List.cons_append]
+      rw [readChars]
+      simp only [procChar, hc, if_false, addChar]
+      by_cases hl : lineEnds c (escapeBody cs ++ quoteCh :: rest) = true
+      · simp only [hl, if_true, procEOL]
+        simp only [reduceCtorEq, if_false]
+        rw [ih]; simp
+      · simp only [hl, Bool.false_eq_true, if_false]
+        rw [ih]; simp
 
-
-/-- hypotheses on the dialect used by the table writer -/
-structure GoodDialect (d : Dialect) : Prop where
-  lt : d.lt = ['\n']
-  dq : d.delim ≠ quoteCh
-  dnl : isNL d.delim = false
-
-def NoNL (f : Str) : Prop := ∀ c ∈ f, isNL c = false
-
-theorem plain_of_not_needsQuote {d : Dialect} (f : Str) (hq : needsQuote d f = false) (hn : NoNL f) :
+theorem plain_of_not_needsQuote {d : Dialect} (f : Str) (hq : needsQuote d f = false) (hn : Quotable d f) :
     ∀ c ∈ f, Plain d.delim c := by
   intro c hc
   have h := hq
   simp only [needsQuote, List.any_eq_false] at h
-  have := h c hc
-  simp [special] at this
-  exact ⟨this.1.1, this.1.2, hn c hc⟩
+  have hs := h c hc
+  simp [special] at hs
+  refine ⟨hs.1.1, hs.1.2, ?_⟩
+  cases hnl : isNL c with
+  | false => rfl
+  | true => exact absurd (hn c hc hnl) hs.2
 
-/-- the three states the reader can be in after the encoded text of field `f` -/
-def Ready (s : RS) (f : Str) (fs : Row) : Prop :=
-  (s = ⟨.inField, f, fs⟩ ∧ f ≠ []) ∨ (s = ⟨.startField, [], fs⟩ ∧ f = []) ∨ s = ⟨.quoteInQuoted, f, fs⟩
+/-- the states the reader can be in when the terminator of a field arrives -/
+def AtFieldEnd (s : RS) : Prop := s.st = .inField ∨ s.st = .startField ∨ s.st = .quoteInQuoted
 
-theorem enc_ready {d : Dialect} (_g : GoodDialect d) (f : Str) (hn : NoNL f) (fs : Row) :
-    Ready (run d.delim ⟨.startField, [], fs⟩ (encField d f)) f fs := by
+theorem atFieldEnd_delim {d : Dialect} (g : GoodDialect d) (s : RS) (h : AtFieldEnd s) (mid : Bool) (rest : Str) :
+    readChars d.delim s mid (d.delim :: rest) = readChars d.delim ⟨.startField, [], s.fields ++ [s.field]⟩ true rest := by
+  rw [readChars_step_plain _ _ _ _ _ g.dnl]
+  obtain ⟨st, fld, fs⟩ := s
+  have h1 := g.dq
+  have h2 := g.dnl
+  rcases h with h | h | h <;> simp only at h <;> subst h <;>
+    simp [procChar, procStartField, saveField, h1, h2]
+
+/-- the record terminator: the field is saved, the line ends, the record is produced -/
+theorem atFieldEnd_lt {d : Dialect} (g : GoodDialect d) (s : RS) (h : AtFieldEnd s) (mid : Bool) (rest : Str) :
+    readChars d.delim s mid (d.lt ++ rest) = emit (s.fields ++ [s.field]) (readChars d.delim reset false rest) := by
+  obtain ⟨st, fld, fs⟩ := s
+  have hne : ¬ '\n' = d.delim := by
+    intro e; have := g.dnl; rw [← e] at this; simp [isNL] at this
+  have hne' : ¬ '\r' = d.delim := by
+    intro e; have := g.dnl; rw [← e] at this; simp [isNL] at this
+  rcases g.lt with hl | hl <;> rw [hl]
+  · -- "\n"
+    simp only [List.cons_append, List.nil_append]
+    rw [readChars]
+    have he : lineEnds '\n' rest = true := by simp [lineEnds]
+    rcases h with h | h | h <;> simp only at h <;> subst h <;>
+      simp [he, procChar, procStartField, saveField, isNL, quoteCh, hne, procEOL, emit] <;>
+      cases readChars d.delim reset false rest <;> rfl
+  · -- "\r\n"
+    simp only [List.cons_append, List.nil_append]
+    rw [readChars]
+    have he1 : lineEnds '\r' ('\n' :: rest) = false := by simp [lineEnds]
+    have he2 : lineEnds '\n' rest = true := by simp [lineEnds]
+    rcases h with h | h | h <;> simp only at h <;> subst h <;>
+      (simp only [he1, Bool.false_eq_true, if_false]
+       rw [readChars]
+       simp [he2, procChar, procStartField, saveField, isNL, quoteCh, hne', procEOL, emit]
+       cases readChars d.delim reset false rest <;> rfl)
+
+/-- after the encoded text of field `f` the reader is at a field end holding `f` -/
+theorem readChars_encField {d : Dialect} (_g : GoodDialect d) (f : Str) (hn : Quotable d f) (fs : Row) (mid : Bool)
+    (rest : Str) :
+    ∃ s mid', AtFieldEnd s ∧ s.field = f ∧ s.fields = fs ∧ (mid' = true ∨ (encField d f = [] ∧ mid' = mid)) ∧
+      readChars d.delim ⟨.startField, [], fs⟩ mid (encField d f ++ rest) = readChars d.delim s mid' rest := by
   unfold encField
   by_cases hq : needsQuote d f = true
   · simp only [hq, if_true]
-    right; right
-    simp [procChar, procStartField, isNL, quoteCh, run_append, run_inQuoted]
+    refine ⟨⟨.quoteInQuoted, f, fs⟩, true, Or.inr (Or.inr rfl), rfl, rfl, Or.inl rfl, ?_⟩
+    rw [List.cons_append, readChars_step_plain _ _ _ _ _ (by decide)]
+    simp only [procChar, procStartField]
+    simp only [show isNL quoteCh = false by decide, Bool.false_eq_true, if_false, if_true]
+    rw [List.append_assoc]
+    have := readChars_inQuoted d.delim f [] fs true rest
+    simpa using this
   · have hq' : needsQuote d f = false := by simpa using hq
     simp only [hq', Bool.false_eq_true, if_false]
     have hp := plain_of_not_needsQuote f hq' hn
     cases f with
-    | nil => right; left; simp
+    | nil => exact ⟨⟨.startField, [], fs⟩, mid, Or.inr (Or.inl rfl), rfl, rfl, Or.inr ⟨rfl, rfl⟩, by simp⟩
     | cons c cs =>
-      left
       obtain ⟨h1, h2, h3⟩ := hp c (by simp)
-      refine ⟨?_, by simp⟩
-      simp [procChar, procStartField, h1, h2, h3, addChar]
-      rw [run_inField d.delim cs (fun c hc => hp c (by simp [hc]))]
+      refine ⟨⟨.inField, c :: cs, fs⟩, true, Or.inl rfl, rfl, rfl, Or.inl rfl, ?_⟩
+      rw [List.cons_append, readChars_step_plain _ _ _ _ _ h3]
+      simp only [procChar, procStartField, h1, h2, h3, addChar, Bool.false_eq_true, if_false]
+      rw [readChars_inField d.delim cs (fun c hc => hp c (by simp [hc]))]
       simp
 
-theorem ready_delim {d : Dialect} (g : GoodDialect d) {s f fs} (h : Ready s f fs) :
-    procChar d.delim s d.delim = ⟨.startField, [], fs ++ [f]⟩ := by
-  have h1 := g.dq
-  have h2 := g.dnl
-  rcases h with ⟨rfl, _⟩ | ⟨rfl, rfl⟩ | rfl <;>
-    simp [procChar, procStartField, saveField, h1, h2]
-
-theorem ready_nl {d : Dialect} (g : GoodDialect d) {s f fs} (h : Ready s f fs) :
-    procChar d.delim s '\n' = ⟨.eatCRNL, [], fs ++ [f]⟩ := by
-  have hne : ¬ '\n' = d.delim := by
-    intro h; have := g.dnl; rw [← h] at this; simp [isNL] at this
-  rcases h with ⟨rfl, _⟩ | ⟨rfl, rfl⟩ | rfl <;>
-    simp [procChar, procStartField, saveField, isNL, quoteCh, hne]
-
-
-theorem run_join {d : Dialect} (g : GoodDialect d) (r : Row) (hr : r ≠ []) (hn : ∀ f ∈ r, NoNL f)
-    (fs0 : Row) :
-    run d.delim ⟨.startField, [], fs0⟩ (joinFields d r ++ ['\n']) = ⟨.eatCRNL, [], fs0 ++ r⟩ := by
-  induction r generalizing fs0 with
+theorem readChars_join {d : Dialect} (g : GoodDialect d) (r : Row) (hr : r ≠ []) (hn : ∀ f ∈ r, Quotable d f)
+    (fs0 : Row) (mid : Bool) (rest : Str) :
+    readChars d.delim ⟨.startField, [], fs0⟩ mid (joinFields d r ++ d.lt ++ rest)
+      = emit (fs0 ++ r) (readChars d.delim reset false rest) := by
+  induction r generalizing fs0 mid with
   | nil => exact absurd rfl hr
-  | cons f rest ih =>
-    cases rest with
+  | cons f more ih =>
+    cases more with
     | nil =>
-      simp only [joinFields, run_append, run_cons, run_nil]
-      exact ready_nl g (enc_ready g f (hn f (by simp)) fs0)
-    | cons f2 rest2 =>
-      have e : joinFields d (f :: f2 :: rest2) ++ ['\n'] =
-          encField d f ++ ([d.delim] ++ (joinFields d (f2 :: rest2) ++ ['\n'])) := by
+      simp only [joinFields]
+      obtain ⟨s, mid', hs, hf, hfs, _, e⟩ := readChars_encField g f (hn f (by simp)) fs0 mid (d.lt ++ rest)
+      rw [List.append_assoc, e, atFieldEnd_lt g s hs, hf, hfs]
+    | cons f2 more2 =>
+      have e1 : joinFields d (f :: f2 :: more2) ++ d.lt ++ rest
+          = encField d f ++ (d.delim :: (joinFields d (f2 :: more2) ++ d.lt ++ rest)) := by
         simp [joinFields]
-      rw [e, run_append, run_append]
-      simp only [run_cons, run_nil]
-      rw [ready_delim g (enc_ready g f (hn f (by simp)) fs0)]
-      rw [ih (by simp) (fun f hf => hn f (by simp [hf]))]
+      obtain ⟨s, mid', hs, hf, hfs, _, e⟩ := readChars_encField g f (hn f (by simp)) fs0 mid
+        (d.delim :: (joinFields d (f2 :: more2) ++ d.lt ++ rest))
+      rw [e1, e, atFieldEnd_delim g s hs, hf, hfs, ih (by simp) (fun f hf => hn f (by simp [hf]))]
       simp
 
-theorem run_startRecord (delim : Char) (fld : Str) (fs : Row) (c : Char) (t : Str) (hc : isNL c = false) :
-    run delim ⟨.startRecord, fld, fs⟩ (c :: t) = run delim ⟨.startField, fld, fs⟩ (c :: t) := by
+theorem readChars_startRecord (delim : Char) (fld : Str) (fs : Row) (mid : Bool) (c : Char) (t : Str)
+    (hc : isNL c = false) :
+    readChars delim ⟨.startRecord, fld, fs⟩ mid (c :: t) = readChars delim ⟨.startField, fld, fs⟩ mid (c :: t) := by
+  rw [readChars_step_plain _ _ _ _ _ hc, readChars_step_plain _ _ _ _ _ hc]
   simp [procChar, hc, procStartField, saveField, addChar]
 
-theorem enc_head {d : Dialect} (f : Str) (hn : NoNL f) :
+theorem enc_head {d : Dialect} (f : Str) (hn : Quotable d f) :
     (encField d f = [] ∧ f = []) ∨ ∃ c t, encField d f = c :: t ∧ isNL c = false := by
   unfold encField
   by_cases hq : needsQuote d f = true
@@ -123,143 +190,171 @@ theorem enc_head {d : Dialect} (f : Str) (hn : NoNL f) :
   · have hq' : needsQuote d f = false := by simpa using hq
     cases f with
     | nil => left; simp [hq']
-    | cons c cs => right; exact ⟨c, cs, by simp [hq'], hn c (by simp)⟩
+    | cons c cs =>
+      right
+      exact ⟨c, cs, by simp [hq'], (plain_of_not_needsQuote (c :: cs) hq' hn c (by simp)).2.2⟩
 
-theorem rowText_head {d : Dialect} (g : GoodDialect d) (r : Row) (hr : r ≠ []) (hn : ∀ f ∈ r, NoNL f) :
-    ∃ c t, rowText d r ++ ['\n'] = c :: t ∧ isNL c = false := by
+theorem rowText_head {d : Dialect} (g : GoodDialect d) (r : Row) (hr : r ≠ []) (hn : ∀ f ∈ r, Quotable d f)
+    (rest : Str) :
+    ∃ c t, rowText d r ++ d.lt ++ rest = c :: t ∧ isNL c = false := by
   unfold rowText
   by_cases h1 : r = [[]]
-  · exact ⟨quoteCh, [quoteCh, '\n'], by simp [h1], by decide⟩
+  · exact ⟨quoteCh, quoteCh :: (d.lt ++ rest), by simp [h1], by decide⟩
   · simp only [h1, if_false]
     match r, hr, hn, h1 with
     | [f], _, hn, h1 =>
       rcases enc_head (d := d) f (hn f (by simp)) with ⟨_, h⟩ | ⟨c, t, h, hc⟩
       · subst h; exact absurd rfl h1
-      · exact ⟨c, t ++ ['\n'], by simp [joinFields, h], hc⟩
-    | f :: f2 :: rest, _, hn, _ =>
+      · exact ⟨c, t ++ d.lt ++ rest, by simp [joinFields, h], hc⟩
+    | f :: f2 :: more, _, hn, _ =>
       rcases enc_head (d := d) f (hn f (by simp)) with ⟨h, _⟩ | ⟨c, t, h, hc⟩
       · exact ⟨d.delim, _, by simp [joinFields, h]; rfl, g.dnl⟩
       · exact ⟨c, _, by simp [joinFields, h]; rfl, hc⟩
 
-/-- one written record, read back from a fresh reader state -/
-theorem runLine_row {d : Dialect} (g : GoodDialect d) (r : Row) (hn : ∀ f ∈ r, NoNL f) :
-    runLine d.delim reset (rowText d r ++ ['\n']) = ⟨.startRecord, [], r⟩ := by
-  unfold runLine
-  change procEOL (run d.delim reset (rowText d r ++ ['\n'])) = _
+/-- one written record, read from a fresh reader state, followed by whatever comes next -/
+theorem readChars_row {d : Dialect} (g : GoodDialect d) (r : Row) (hn : ∀ f ∈ r, Quotable d f) (rest : Str) :
+    readChars d.delim reset false (writeRow d r ++ rest) = emit r (readChars d.delim reset false rest) := by
+  unfold writeRow
   by_cases hr : r = []
   · subst hr
-    simp [rowText, joinFields, reset, procChar, isNL, procEOL]
-  · by_cases h1 : r = [[]]
+    have : rowText d [] = [] := by simp [rowText, joinFields]
+    rw [this, List.nil_append]
+    -- the empty record: only the line terminator
+    rcases g.lt with hl | hl <;> rw [hl]
+    · simp only [List.cons_append, List.nil_append]
+      rw [readChars]
+      have he : lineEnds '\n' rest = true := by simp [lineEnds]
+      simp [he, reset, procChar, isNL, procEOL, emit]
+      cases readChars d.delim ⟨.startRecord, [], []⟩ false rest <;> rfl
+    · simp only [List.cons_append, List.nil_append]
+      rw [readChars]
+      have he1 : lineEnds '\r' ('\n' :: rest) = false := by simp [lineEnds]
+      have he2 : lineEnds '\n' rest = true := by simp [lineEnds]
+      simp only [he1, Bool.false_eq_true, if_false]
+      rw [readChars]
+      simp [he2, reset, procChar, isNL, procEOL, emit]
+      cases readChars d.delim ⟨.startRecord, [], []⟩ false rest <;> rfl
+  · obtain ⟨c, t, e, hc⟩ := rowText_head g r hr hn rest
+    rw [e, reset, readChars_startRecord _ _ _ _ _ _ hc, ← e]
+    by_cases h1 : r = [[]]
     · subst h1
-      have hne : ¬ '\n' = d.delim := by
-        intro h; have := g.dnl; rw [← h] at this; simp [isNL] at this
-      simp [rowText, reset, procChar, procStartField, isNL, quoteCh, procEOL, saveField, hne]
-    · obtain ⟨c, t, e, hc⟩ := rowText_head g r hr hn
-      rw [e, reset, run_startRecord _ _ _ _ _ hc, ← e]
-      simp only [rowText, h1, if_false]
-      rw [run_join g r hr hn]
-      simp [procEOL]
+      -- the lone empty field is written as `""`
+      have hq := readChars_inQuoted d.delim [] [] [] true (d.lt ++ rest)
+      simp only [escapeBody, List.nil_append, List.append_nil] at hq
+      have e2 : rowText d [[]] ++ d.lt ++ rest = quoteCh :: quoteCh :: (d.lt ++ rest) := by simp [rowText]
+      rw [e2, readChars_step_plain _ _ _ _ _ (by decide)]
+      simp only [procChar, procStartField, show isNL quoteCh = false by decide, Bool.false_eq_true, if_false,
+        if_true]
+      rw [hq, atFieldEnd_lt g _ (Or.inr (Or.inr rfl))]
+      simp [reset]
+    · have e2 : rowText d r = joinFields d r := by simp [rowText, h1]
+      rw [e2]
+      have := readChars_join g r hr hn [] false rest
+      simpa [reset] using this
 
-
-theorem readLines_rows {d : Dialect} (g : GoodDialect d) (rows : List Row)
-    (hn : ∀ r ∈ rows, ∀ f ∈ r, NoNL f) :
-    readLines d.delim reset (rows.map fun r => rowText d r ++ ['\n']) = .ok rows := by
-  induction rows with
-  | nil => simp [readLines, reset]
-  | cons r rs ih =>
-    simp only [List.map_cons, readLines]
-    rw [runLine_row g r (hn r (by simp))]
-    simp [ih (fun r hr => hn r (by simp [hr]))]
-
-theorem mem_escapeBody (f : Str) (x : Char) (hx : x ∈ escapeBody f) : x ∈ f := by
-  induction f with
-  | nil => simp [escapeBody] at hx
-  | cons c cs ih =>
-    unfold escapeBody at hx
-    by_cases hc : c = quoteCh
-    · simp only [hc, if_true, List.mem_cons] at hx
-      rcases hx with h | h | h
-      · simp [h, hc]
-      · simp [h, hc]
-      · simp [ih h]
-    · simp only [hc, if_false, List.mem_cons] at hx
-      rcases hx with h | h
-      · simp [h]
-      · simp [ih h]
-
-theorem noNL_escapeBody (f : Str) (hn : NoNL f) : NoNL (escapeBody f) :=
-  fun x hx => hn x (mem_escapeBody f x hx)
-
-theorem noNL_encField (d : Dialect) (f : Str) (hn : NoNL f) : NoNL (encField d f) := by
-  unfold encField
-  split
-  · intro x hx
-    simp at hx
-    rcases hx with rfl | hx | rfl
-    · decide
-    · exact noNL_escapeBody f hn x hx
-    · decide
-  · exact hn
-
-theorem noNL_joinFields {d : Dialect} (g : GoodDialect d) (r : Row) (hn : ∀ f ∈ r, NoNL f) :
-    NoNL (joinFields d r) := by
-  induction r with
-  | nil => simp [joinFields, NoNL]
-  | cons f rest ih =>
-    cases rest with
-    | nil => simpa [joinFields] using noNL_encField d f (hn f (by simp))
-    | cons f2 rest2 =>
-      intro x hx
-      simp only [joinFields, List.mem_append, List.mem_cons] at hx
-      rcases hx with hx | rfl | hx
-      · exact noNL_encField d f (hn f (by simp)) x hx
-      · exact g.dnl
-      · exact ih (fun f hf => hn f (by simp [hf])) x hx
-
-theorem noNL_rowText {d : Dialect} (g : GoodDialect d) (r : Row) (hn : ∀ f ∈ r, NoNL f) :
-    NoNL (rowText d r) := by
-  unfold rowText
-  split
-  · intro x hx; simp at hx; subst hx; decide
-  · exact noNL_joinFields g r hn
-
-theorem split_nl (acc rest : Str) :
-    splitLinesAux acc ('\n' :: rest) = (acc ++ ['\n']) :: splitLinesAux [] rest := by
-  cases rest <;> simp [splitLinesAux]
-
-theorem split_plain (acc rest : Str) (c : Char) (h1 : c ≠ '\n') (h2 : c ≠ '\r') :
-    splitLinesAux acc (c :: rest) = splitLinesAux (acc ++ [c]) rest := by
-  cases rest <;> simp [splitLinesAux, h1, h2]
-
-theorem splitLinesAux_line (body rest acc : Str) (hn : NoNL body) :
-    splitLinesAux acc (body ++ '\n' :: rest) = (acc ++ body ++ ['\n']) :: splitLinesAux [] rest := by
-  induction body generalizing acc with
-  | nil => simp [split_nl]
-  | cons c cs ih =>
-    have hc := hn c (by simp)
-    simp [isNL] at hc
-    rw [List.cons_append, split_plain _ _ _ hc.1 hc.2, ih _ (fun c hc => hn c (by simp [hc]))]
-    simp
-
-theorem splitLines_csvWrite {d : Dialect} (g : GoodDialect d) (rows : List Row)
-    (hn : ∀ r ∈ rows, ∀ f ∈ r, NoNL f) :
-    splitLines (csvWrite d rows) = rows.map fun r => rowText d r ++ ['\n'] := by
-  unfold splitLines
-  induction rows with
-  | nil => simp [csvWrite, splitLinesAux]
-  | cons r rs ih =>
-    simp only [csvWrite, writeRow, g.lt, List.map_cons]
-    have : (rowText d r ++ ['\n']) ++ csvWrite d rs = rowText d r ++ '\n' :: csvWrite d rs := by simp
-    rw [this, splitLinesAux_line _ _ _ (noNL_rowText g r (hn r (by simp)))]
-    rw [ih (fun r hr => hn r (by simp [hr]))]
-    simp
-
-theorem csv_roundtrip' {d : Dialect} (g : GoodDialect d) (rows : List Row)
-    (hn : ∀ r ∈ rows, ∀ f ∈ r, NoNL f) :
+theorem csv_roundtrip_general {d : Dialect} (g : GoodDialect d) (rows : List Row)
+    (hn : ∀ r ∈ rows, ∀ f ∈ r, Quotable d f) :
     csvRead d.delim (csvWrite d rows) = .ok rows := by
   unfold csvRead
-  rw [splitLines_csvWrite g rows hn, readLines_rows g rows hn]
+  induction rows with
+  | nil => simp [csvWrite, readChars, reset]
+  | cons r rs ih =>
+    simp only [csvWrite]
+    rw [readChars_row g r (hn r (by simp)), ih (fun r hr => hn r (by simp [hr]))]
+    rfl
 
+/-! ### text without the final line terminator (`to_csv` / `to_tsv`) -/
+
+theorem atFieldEnd_eof (delim : Char) (s : RS) (h : AtFieldEnd s) :
+    readChars delim s true [] = .ok [s.fields ++ [s.field]] := by
+  obtain ⟨st, fld, fs⟩ := s
+  rcases h with h | h | h <;> simp only at h <;> subst h <;> simp [readChars, procEOL, saveField]
+
+theorem readChars_join_eof {d : Dialect} (g : GoodDialect d) (r : Row) (hr : r ≠ []) (hn : ∀ f ∈ r, Quotable d f)
+    (fs0 : Row) (mid : Bool) (hm : mid = true ∨ joinFields d r ≠ []) :
+    readChars d.delim ⟨.startField, [], fs0⟩ mid (joinFields d r) = .ok [fs0 ++ r] := by
+  induction r generalizing fs0 mid with
+  | nil => exact absurd rfl hr
+  | cons f more ih =>
+    cases more with
+    | nil =>
+      simp only [joinFields] at hm ⊢
+      obtain ⟨s, mid', hs, hf, hfs, hmid, e⟩ := readChars_encField g f (hn f (by simp)) fs0 mid []
+      rw [List.append_nil] at e
+      have hm' : mid' = true := by
+        rcases hmid with h | ⟨h1, h2⟩
+        · exact h
+        · rcases hm with h | h
+          · rw [h2, h]
+          · exact absurd h1 h
+      rw [e, hm', atFieldEnd_eof _ s hs, hf, hfs]
+    | cons f2 more2 =>
+      obtain ⟨s, mid', hs, hf, hfs, _, e⟩ := readChars_encField g f (hn f (by simp)) fs0 mid
+        (d.delim :: joinFields d (f2 :: more2))
+      have e1 : joinFields d (f :: f2 :: more2) = encField d f ++ (d.delim :: joinFields d (f2 :: more2)) := by
+        simp [joinFields]
+      rw [e1, e, atFieldEnd_delim g s hs, hf, hfs, ih (by simp) (fun f hf => hn f (by simp [hf])) _ true (Or.inl rfl)]
+      simp
+
+theorem joinFields_head {d : Dialect} (g : GoodDialect d) (r : Row) (hr : r ≠ []) (h1 : r ≠ [[]])
+    (hn : ∀ f ∈ r, Quotable d f) : ∃ c t, joinFields d r = c :: t ∧ isNL c = false := by
+  match r, hr, hn, h1 with
+  | [f], _, hn, h1 =>
+    rcases enc_head (d := d) f (hn f (by simp)) with ⟨_, h⟩ | ⟨c, t, h, hc⟩
+    · subst h; exact absurd rfl h1
+    · exact ⟨c, t, by simp [joinFields, h], hc⟩
+  | f :: f2 :: more, _, hn, _ =>
+    rcases enc_head (d := d) f (hn f (by simp)) with ⟨h, _⟩ | ⟨c, t, h, hc⟩
+    · exact ⟨d.delim, _, by simp [joinFields, h]; rfl, g.dnl⟩
+    · exact ⟨c, _, by simp [joinFields, h]; rfl, hc⟩
+
+/-- the last record without its line terminator -/
+theorem readChars_row_eof {d : Dialect} (g : GoodDialect d) (r : Row) (hr : r ≠ []) (hn : ∀ f ∈ r, Quotable d f) :
+    readChars d.delim reset false (rowText d r) = .ok [r] := by
+  by_cases h1 : r = [[]]
+  · subst h1
+    have hq := readChars_inQuoted d.delim [] [] [] true []
+    simp only [escapeBody, List.nil_append] at hq
+    have e2 : rowText d [[]] = quoteCh :: [quoteCh] := by simp [rowText]
+    rw [e2, reset, readChars_startRecord _ _ _ _ _ _ (by decide), readChars_step_plain _ _ _ _ _ (by decide)]
+    simp only [procChar, procStartField, show isNL quoteCh = false by decide, Bool.false_eq_true, if_false, if_true]
+    rw [hq, atFieldEnd_eof _ _ (Or.inr (Or.inr rfl))]
+    simp
+  · have e2 : rowText d r = joinFields d r := by simp [rowText, h1]
+    obtain ⟨c, t, e, hc⟩ := joinFields_head g r hr h1 hn
+    rw [e2, e, reset, readChars_startRecord _ _ _ _ _ _ hc, ← e]
+    have := readChars_join_eof g r hr hn [] false (Or.inr (by rw [e]; simp))
+    simpa using this
+
+theorem readChars_rows_then {d : Dialect} (g : GoodDialect d) (rows : List Row)
+    (hn : ∀ r ∈ rows, ∀ f ∈ r, Quotable d f) (rest : Str) :
+    readChars d.delim reset false (csvWrite d rows ++ rest)
+      = (match readChars d.delim reset false rest with
+         | .ok rs => .ok (rows ++ rs)
+         | .error e => .error e) := by
+  induction rows with
+  | nil => simp [csvWrite]; cases readChars d.delim reset false rest <;> rfl
+  | cons r rs ih =>
+    simp only [csvWrite, List.append_assoc]
+    rw [readChars_row g r (hn r (by simp)), ih (fun r hr => hn r (by simp [hr]))]
+    cases readChars d.delim reset false rest <;> simp [emit]
+
+theorem csvWrite_append (d : Dialect) (a b : List Row) : csvWrite d (a ++ b) = csvWrite d a ++ csvWrite d b := by
+  induction a with
+  | nil => rfl
+  | cons r rs ih => simp [csvWrite, ih]
+
+/-- the text of `to_csv()` / `to_tsv()` (records through the writer, final "\n" dropped) reads back -/
+theorem toCsv_reads_back {d : Dialect} (g : GoodDialect d) (hlt : d.lt = ['\n']) (rs : List Row) (last : Row)
+    (hl : last ≠ []) (hn : ∀ r ∈ rs ++ [last], ∀ f ∈ r, Quotable d f) :
+    csvRead d.delim ((csvWrite d (rs ++ [last])).dropLast) = .ok (rs ++ [last]) := by
+  have e : (csvWrite d (rs ++ [last])).dropLast = csvWrite d rs ++ rowText d last := by
+    rw [csvWrite_append]
+    simp only [csvWrite, writeRow, hlt, List.append_nil]
+    rw [← List.append_assoc, List.dropLast_concat]
+  unfold csvRead
+  rw [e, readChars_rows_then g rs (fun r hr => hn r (by simp [hr])),
+    readChars_row_eof g last hl (hn last (by simp))]
 
 theorem dropLast_append_singleton {α} (l : List α) (x : α) : dropLast (l ++ [x]) = l := by
   induction l with
@@ -273,12 +368,12 @@ theorem dropLast_append_singleton {α} (l : List α) (x : α) : dropLast (l ++ [
 legend unchanged (title / legend rows are present iff non-empty, the caller says so by
 `with_title` / `with_legend`). -/
 theorem table_text_roundtrip' {d : Dialect} (g : GoodDialect d) (title legend : Str) (header : Row)
-    (rows : List Row) (ht : NoNL title) (hl : NoNL legend) (hh : ∀ f ∈ header, NoNL f)
-    (hn : ∀ r ∈ rows, ∀ f ∈ r, NoNL f) :
+    (rows : List Row) (ht : Quotable d title) (hl : Quotable d legend) (hh : ∀ f ∈ header, Quotable d f)
+    (hn : ∀ r ∈ rows, ∀ f ∈ r, Quotable d f) :
     loadDelimited d.delim (title ≠ []) (legend ≠ []) (tableWrite d title header rows legend)
       = .ok (header, rows, title, legend) := by
   unfold loadDelimited tableWrite
-  rw [csv_roundtrip' g]
+  rw [csv_roundtrip_general g]
   · by_cases h1 : title = [] <;> by_cases h2 : legend = [] <;>
       simp [h1, h2, dropLast_append_singleton]
   · intro r hr f hf
